@@ -1,16 +1,19 @@
 import LettreVerif.Proofs.BodyEnc
 import LettreVerif.Proofs.QuotedPrintable
+import LettreVerif.Proofs.QpLines
+import LettreVerif.Proofs.B64Lines
 /-!
 # C10 — Body transfer encoding is lossless and obeys the declared encoding's rules
 
 `bodyNew isStr b` models `Body::new` (automatic choice), `bodyNewWith` models
 `Body::new_with_encoding`; `isStr` = the content was a `String` (lone LF becomes CRLF).  The
 reader's side is `Spec/BodyDec.lean`.  Proved here: the choice of the encoding, the 7bit / 8bit
-rules, and the round trips of all three non-trivial encodings — identity, base64, and
-quoted-printable (`roundtrip_quoted_printable`: an RFC 2045 §6.7 reader gives back every content).
-Not proved: the line rules of the quoted-printable output (`qp_lines`: at most 76 characters, no
-bare trailing white space) — `encodedOk` is applied to every real encoder output by the
-correspondence check.
+rules, the round trips of all three non-trivial encodings — identity, base64, and
+quoted-printable (`roundtrip_quoted_printable`: an RFC 2045 §6.7 reader gives back every content) —
+and the line rules of the quoted-printable output (`quoted_printable_lines`: ASCII, at most 76
+characters per line soft breaks included, no bare trailing white space) and of base64 bodies
+(`base64_lines`).  `encodedOk` is also
+applied to every real encoder output by the correspondence check.
 -/
 namespace LV.C10
 open LV LV.BodyEnc LV.BodyDec
@@ -69,9 +72,20 @@ theorem roundtrip_identity (isStr : Bool) (b : Bytes) (e : Enc)
 theorem roundtrip_quoted_printable (b : Bytes) : BodyDec.qpDecode (encodeWith .quotedPrintable b) = some b :=
   BodyEnc.qp_roundtrip b
 
+/-- **Line rules of quoted-printable.** For every content the emitted octets are ASCII, CR and LF occur only as CRLF,
+    every line — soft line breaks' `=` included — has at most 76 characters, and no SP / HTAB stands directly before
+    a line break or at the end (RFC 2045 §6.7 rules 3 and 5). -/
+theorem quoted_printable_lines (b : Bytes) : encodedOk (encodeWith .quotedPrintable b) = true :=
+  BodyEnc.qp_encodedOk b
+
 /-- base64: a reader that ignores line breaks recovers exactly the octets. -/
 theorem roundtrip_base64 (b : Bytes) : b64Decode (encodeWith .base64 b) = some b :=
   b64Body_roundtrip b
+
+/-- **Line rules of a base64 body.** ASCII, lines of at most 76 characters separated by CRLF, nothing but the
+    alphabet and `=` on a line. -/
+theorem base64_lines (b : Bytes) : encodedOk (encodeWith .base64 b) = true :=
+  BodyEnc.b64_encodedOk b
 
 /-- Quoted-printable, base64 and binary are never refused; 7bit / 8bit are refused exactly
     when the best encoding for the content is not 7bit (resp. 7bit or 8bit), and then the content
